@@ -324,3 +324,18 @@ def only_reached_through(prog, unit, target, allowed_roots):
             return False
         return all(ok(g, stack + (f,)) for g in cs)
     return ok(target), sorted(callers.get(target, set()))
+
+
+def lit_of(E, argx):
+    """string an argument denotes: a literal in the source, or a value known to be one literal (e.g. a helper's parameter)"""
+    if argx is None:
+        return None
+    s = argx.string
+    if s is not None:
+        return s
+    v = E.val(argx)
+    if v is not None and v is not TOP and len(v) == 1:
+        (a,) = v
+        if isinstance(a, tuple) and a[0] == 'str':
+            return a[1]
+    return None
